@@ -175,7 +175,7 @@ type lnWrap struct{ inc *Incarnation }
 
 func (l *lnWrap) tips() (uint32, uint32) {
 	w := l.inc.node.w
-	return w.BTC.heightLocked(), w.LBTC.heightLocked()
+	return w.BTC.heightLocked() + w.BTC.HeightOffset, w.LBTC.heightLocked() + w.LBTC.HeightOffset
 }
 
 func (l *lnWrap) DecodePayreq(payreq string) (string, uint64, int64, error) {
